@@ -169,3 +169,10 @@ package method_evaluator
 //@   ensures[C08] definedArgT != nil && argT != nil && old(definedArgT.tType == base.UNION && argT.tType == base.UNION && exists(i, 0 <= i && i < len(definedArgT.variants) && definedArgT.variants[i].tType == base.UNTYPED)) ==> isnil(result)
 //@   ensures[C08] definedArgT != nil && argT != nil && old(definedArgT.tType == base.UNION && argT.tType == base.UNION && variantTypesWithin(argT, definedArgT)) ==> isnil(result)
 //@   witness post:0.0#3 "c = true\nx = c ? 1 : \"a\"\ng = GPIO.new(x, 1)\n" expect "type mismatch"
+
+//@ # ---- C01: return type resolution never asserts a type it has not checked ----
+//@ func ti/eval/method_evaluator.calculateExecutionType
+//@   safe assert
+//@   inline 2 1
+//@   witness assert#0 "x = [1,2].collect\n"
+//@   witness assert#1 "x = [1,2].collect\n"
